@@ -80,6 +80,7 @@ class Exec:
         self._implied_cache: dict = {}
         self._number_loops()
         self._scan_local_kinds()
+        self.fresh_locals = fresh_locals(self.fd)
 
     # ------------------------------------------------------------------ set-up
     def _number_loops(self):
@@ -351,8 +352,8 @@ class Exec:
     def write_back(self, target_expr, newv: VSeq, st: St, oldv: VSeq):
         """Mutation of a list denoted by target_expr (Name or self.field)."""
         if isinstance(target_expr, ast.Name):
-            if not oldv.fresh:
-                self.oblige("mutates-non-fresh-list", z3.BoolVal(False), st=st, note=f"list `{target_expr.id}` is not known to be freshly allocated here")
+            if target_expr.id not in self.fresh_locals and not target_expr.id.startswith("_acc") and st.vars.get("__ctor__") is None:
+                self.oblige("mutates-non-fresh-list", z3.BoolVal(False), st=st, note=f"list `{target_expr.id}` is not freshly allocated on every path (frame: it may alias an argument)")
             s2 = st.fork()
             k = self.local_kinds.get(target_expr.id)
             s2.vars[target_expr.id] = coerce(newv, k) if k else newv
@@ -533,6 +534,23 @@ class Exec:
                 s3.vars[node.target.id] = a
                 res.append((s3, ("range", node.target.id, a.t, b.t, cs.as_long())))
             return res
+        if isinstance(it, ast.Call) and isinstance(it.func, ast.Name) and it.func.id == "zip" and len(it.args) == 2:
+            strict = any(k.arg == "strict" and isinstance(k.value, ast.Constant) and k.value.value for k in it.keywords)
+            if not (isinstance(node.target, ast.Tuple) and len(node.target.elts) == 2):
+                raise Unsupported("zip target")
+            for (sa, sb), s2 in [((v[0], v[1]), s_) for v, s_ in self.ev_list(list(it.args), st)]:
+                if not (isinstance(sa, VSeq) and isinstance(sb, VSeq)):
+                    raise Unsupported("zip of non-lists")
+                if strict:
+                    s2 = self.implicit_exc(s2, "ValueError", z3.Length(sa.t) != z3.Length(sb.t), "zip-strict")
+                else:
+                    raise Unsupported("zip without strict=True")
+                idx = f"_i{ordinal}"
+                s3 = s2.fork()
+                s3.vars[idx] = VInt(0)
+                s3.vars[f"_s{ordinal}"] = sa
+                res.append((s3, ("seq", idx, sa, ("zip", node.target.elts[0], node.target.elts[1], sb))))
+            return res
         enum = False
         if isinstance(it, ast.Call) and isinstance(it.func, ast.Name) and it.func.id == "enumerate" and len(it.args) == 1:
             enum = True
@@ -696,6 +714,9 @@ class Exec:
                 elem = wrap_elem(seqv.ek, seqv.t[b.vars[idx].t])
                 if tgt[0] == "elem":
                     b = self.assign(tgt[1], elem, b)[0]
+                elif tgt[0] == "zip":
+                    b = self.assign(tgt[1], elem, b)[0]
+                    b = self.assign(tgt[2], wrap_elem(tgt[3].ek, tgt[3].t[b.vars[idx].t]), b)[0]
                 else:
                     b = self.assign(tgt[1], b.vars[idx], b)[0]
                     b = self.assign(tgt[2], elem, b)[0]
@@ -1587,6 +1608,54 @@ def seq_facts(f, qfree=False):
     if z3.is_app_of(right, z3.Z3_OP_SEQ_UNIT):
         out.append(a[n0] == right.arg(0))
     return out
+
+
+def _fresh_expr(e) -> bool:
+    """syntactically a newly allocated list (or None)"""
+    if isinstance(e, ast.Constant) and e.value is None:
+        return True
+    if isinstance(e, (ast.List, ast.ListComp)):
+        return True
+    if isinstance(e, ast.Subscript) and isinstance(e.slice, ast.Slice):
+        return True
+    if isinstance(e, ast.BinOp) and isinstance(e.op, ast.Add):
+        return _fresh_expr(e.left) or _fresh_expr(e.right)
+    if isinstance(e, ast.Call):
+        f = e.func
+        if isinstance(f, ast.Name) and f.id in ("list", "sorted", "dict", "set"):
+            return True
+        if isinstance(f, ast.Attribute) and f.attr == "copy" and not e.args:
+            return True
+    if isinstance(e, ast.IfExp):
+        return _fresh_expr(e.body) and _fresh_expr(e.orelse)
+    return False
+
+
+def fresh_locals(fd) -> set:
+    """local names every assignment of which is a fresh allocation (so mutating them cannot
+    touch an argument or shared object); parameters are never fresh"""
+    params = {a.arg for a in fd.args.posonlyargs + fd.args.args + fd.args.kwonlyargs}
+    good, bad = set(), set(params)
+    for n in ast.walk(fd):
+        targets = []
+        if isinstance(n, ast.Assign):
+            targets = [(t, n.value) for t in n.targets]
+        elif isinstance(n, ast.AnnAssign) and n.value is not None:
+            targets = [(n.target, n.value)]
+        elif isinstance(n, (ast.For, ast.comprehension)):
+            for t in ast.walk(n.target):
+                if isinstance(t, ast.Name):
+                    bad.add(t.id)
+        elif isinstance(n, ast.NamedExpr):
+            targets = [(n.target, n.value)]
+        for t, v in targets:
+            if isinstance(t, ast.Name):
+                (good if _fresh_expr(v) else bad).add(t.id)
+            elif isinstance(t, (ast.Tuple, ast.List)):
+                for x in ast.walk(t):
+                    if isinstance(x, ast.Name):
+                        bad.add(x.id)
+    return good - bad
 
 
 def _clamp(x, n):
